@@ -27,10 +27,11 @@ import numpy as np
 from lib import Checker, bits_equal, deviations, digest, ulp_diff
 
 PROPERTY = "C12"
-RULE = ("config axes: model kind [10: AlphaModel alpha prior / alpha fixed, "
+RULE = ("config axes: model kind [11: AlphaModel alpha prior / alpha fixed, "
         "ExactModel with counting calc_func, 2 spheres + LimitOverlaps "
         "fraction 0.1/0/1/0.125, 2 spheres sharing one radius prior, MieLens "
-        "theory parameter, medium-index parameter] x noise source [9: model "
+        "theory parameter under AlphaModel / ExactModel, medium-index "
+        "parameter] x noise source [9: model "
         "scalar / data / both / none / model prior / scalar on 2 channels / "
         "per-channel on model / on data / on both] x optics source [4] x "
         "prior-kind pattern [12] x data form [4]; all config vectors with <= 2 "
@@ -38,8 +39,11 @@ RULE = ("config axes: model kind [10: AlphaModel alpha prior / alpha fixed, "
         "{guess, lower, upper, 1 ulp below lower, 1 ulp above upper, "
         "interior, far-outside or invalid (r<0)} (+ overlap boundary values); "
         "thorough: full product for configs with <= 1 deviation (<= 4 "
-        "parameters; D<=3 for 5), D<=2 for 2-deviation configs, plus all 81 "
-        "prior-kind patterns; quick: D<=2 resp. D<=1.  pixels=k: every "
+        "parameters; D<=3 for 5), D<=1 for 2-deviation configs, plus all 81 "
+        "prior-kind patterns at D<=2; quick: D<=2 on the default config, "
+        "D<=1 on 1-deviation configs, D<=1 over {guess, upper, lower-1ulp, "
+        "far} on 2-deviation configs of a reduced config alphabet.  "
+        "pixels=k: every "
         "ordered k-selection of a 2x2 image (thorough: also 2x3) scripted "
         "through numpy.random.choice.  Non-trivial = distinct fingerprint of "
         "the observed (lnprior, lnposterior) values")
@@ -126,7 +130,7 @@ def site_alphabet(site, kind):
 # configuration axes
 # ---------------------------------------------------------------------------
 KINDS = ["alpha-prior", "alpha-fixed", "exact", "two-0.1", "two-0", "two-1",
-         "two-0.125", "two-tied", "lens", "medium"]
+         "two-0.125", "two-tied", "lens", "exact-lens", "medium"]
 KIND_SITES = {
     "alpha-prior": ["n", "r", "z", "alpha"],
     "alpha-fixed": ["n", "r", "z", "x"],
@@ -137,6 +141,7 @@ KIND_SITES = {
     "two-0.125": ["r1", "x2", "alpha"],
     "two-tied": ["r1", "x2", "alpha"],      # one prior used for both radii
     "lens": ["n", "lens_angle", "alpha"],
+    "exact-lens": ["n", "lens_angle", "z"],
     "medium": ["n", "r", "medium_index", "alpha"],
 }
 FRACTION = {"two-0.1": 0.1, "two-0": 0, "two-1": 1, "two-0.125": 0.125,
@@ -349,7 +354,7 @@ def build(cfg, shape=(4, 4), subset_pixels=7):
         scat = Sphere(n=site("n", 1.59), r=site("r", 0.5),
                       center=(site("x", 0.17), 0.11, site("z", 5.0)))
         constraints = []
-    if kind == "lens":
+    if kind in ("lens", "exact-lens"):
         theory = MieLens(lens_angle=P["lens_angle"])
     else:
         theory = Mie()
@@ -480,7 +485,7 @@ def harness_forward(c, vals, detector):
     else:
         scat = Sphere(n=g("n", 1.59), r=g("r", 0.5),
                       center=(g("x", 0.17), 0.11, g("z", 5.0)))
-    if c.cfg["kind"] == "lens":
+    if c.cfg["kind"] in ("lens", "exact-lens"):
         theory = MieLens(lens_angle=vals["lens_angle"])
     else:
         theory = Mie()
